@@ -125,6 +125,48 @@ class Workspace:
         if label not in self.transforms:
             self.transforms.append(label)
 
+    def drop_downstream_dev_deps(self, crate="yash-env"):
+        """Native playback builds `cargo test -p <crate>` with cfg(kani) set for the whole
+        workspace, so dev-dependencies on downstream crates (used by doc tests only) would be
+        compiled against the transformed types. They are removed from the snapshot's manifest."""
+        rel = crate + "/Cargo.toml"
+        text = self.read(rel)
+        new = re.sub(r'^(yash-prompt|yash-semantics) = \{ path = "\.\./[a-z-]+" \}\n', "", text, flags=re.M)
+        if new != text:
+            self.write(rel, new)
+            self.transforms.append("T0 dev-dependencies of %s on downstream crates removed in the snapshot (doc tests only; needed "
+                                   "for native playback under cfg(kani))" % crate)
+
+    def disable_unit_tests_under_kani(self, crate):
+        """Native playback compiles the crate's own #[cfg(test)] modules with cfg(kani) set; where a
+        snapshot transform changes a type under cfg(kani) those modules no longer compile. They are
+        switched off for cfg(kani) builds only (the playback test lives in the harness module)."""
+        n = 0
+        base = os.path.join(self.ws, crate, "src")
+        for d, _, files in os.walk(base):
+            for fn in files:
+                if fn.endswith(".rs"):
+                    p = os.path.join(d, fn)
+                    with open(p) as f:
+                        t = f.read()
+                    def fix_line(line):
+                        if line.strip() == "#[test]":
+                            return line.replace("#[test]", "#[cfg(not(kani))] #[test]")
+                        if not re.search(r"#!?\[cfg(_attr)?\(", line):
+                            return line
+                        # replace the bare `test` predicate (not inside a quoted feature name)
+                        parts = re.split(r'("[^"]*")', line)
+                        for k in range(0, len(parts), 2):
+                            parts[k] = re.sub(r"\btest\b", "all(test, not(kani))", parts[k])
+                        return "".join(parts)
+                    t2 = "\n".join(fix_line(l) for l in t.split("\n"))
+                    if t2 != t:
+                        with open(p, "w") as f:
+                            f.write(t2)
+                        n += 1
+        self.transforms.append("T0b the %s unit-test modules are disabled under cfg(kani) in the snapshot (%d files; native "
+                               "playback only compiles the harness module's test)" % (crate, n))
+
     def strip_thorough(self, harness_file):
         """Quick tier: drop the lines marked `// @thorough` from the scratch copy of a harness
         file (fewer harnesses to codegen)."""
@@ -219,6 +261,14 @@ class Harness:
         # [(regex over the pretty function name, bound)]: recursion bound for specific (drop-glue)
         # functions, passed to CBMC as --unwindset with the unwinding assertion kept
         self.recursion_bounds = recursion_bounds or []
+
+
+# The drop glue / clone / eq of yash_env::source::Location are recursive
+# (Location -> Rc<Code> -> Rc<Source> -> Source::Alias { original: Location }); every Location a harness
+# creates is non-nested, so the recursion is bounded at 1 with the unwinding assertion kept.
+LOCATION_RECURSION = [(r"^std::ptr::drop_glue::<yash_env::source::Location>$", 1),
+                      (r"^<yash_env::source::Location as std::clone::Clone>::clone$", 1),
+                      (r"^<yash_env::source::Location as std::cmp::PartialEq>::eq$", 1)]
 
 
 class KaniResult:
@@ -373,7 +423,7 @@ class KaniSession:
     def sel(h):
         if h.mod:
             return ["--harness", h.mod + "::" + h.name, "--exact"]
-        return ["--harness", h.name]
+        return ["--harness", h.name, "--exact"]   # external harness crates define harnesses at the crate root
 
     def build(self, timeout=1500):
         rc, out, dt = run_cmd(self.base_cmd() + ["--only-codegen"], self.cwd, timeout)
@@ -409,7 +459,10 @@ class KaniSession:
 
     def run_one(self, h, extra_kani=None):
         res = KaniResult(h)
-        cmd = self.base_cmd() + self.sel(h) + h.extra + (extra_kani or []) + self.unwindset_args(h)
+        # concrete playback is requested up front: on a failure Kani prints the counterexample as a
+        # unit test, so the replay step does not have to re-run the verification
+        cmd = (self.base_cmd() + self.sel(h) + ["-Z", "concrete-playback", "--concrete-playback=print"]
+               + h.extra + (extra_kani or []) + self.unwindset_args(h))
         logfile = os.path.join(self.w.root, "log-%s.txt" % h.name)
         rc, out, dt = run_cmd(cmd, self.cwd, h.timeout, mem_gb=h.mem_gb, logfile=logfile)
         res.wall_s = dt
@@ -442,9 +495,7 @@ class KaniSession:
         test under /verif/replays/<id>/ and execute it natively (dev profile) against
         the snapshot. Returns True iff the counterexample reproduces natively."""
         h = res.h
-        cmd = self.base_cmd() + self.sel(h) + ["-Z", "concrete-playback",
-                                               "--concrete-playback=print"] + h.extra
-        rc, out, dt = run_cmd(cmd, self.cwd, h.timeout, mem_gb=h.mem_gb)
+        out = res.log
         blocks = re.findall(r"```\n(.*?)```", out, re.S)
         blocks = [b for b in blocks if "#[test]" in b and "Check for `cover`" not in b]
         rdir = os.path.join(VERIF, "replays", prop_id)
@@ -655,8 +706,9 @@ class Outcome:
             "wall_s": round(wall, 1),
             "violations": len(self.violations),
         }
-        os.makedirs(os.path.join(VERIF, "evidence"), exist_ok=True)
-        with open(os.path.join(VERIF, "evidence", self.prop_id + ".json"), "w") as f:
+        evdir = os.environ.get("VERIF_EVIDENCE_DIR", os.path.join(VERIF, "evidence"))
+        os.makedirs(evdir, exist_ok=True)
+        with open(os.path.join(evdir, self.prop_id + ".json"), "w") as f:
             json.dump(ev, f, indent=1)
         for key, text in self.known_hits:
             log("KNOWN-FINDING: property=%s %s (%s)" % (self.prop_id, key, text))
